@@ -129,7 +129,12 @@ type fakeDialer struct {
 func (c *fakeClient) NewStreamDialer() (netio.StreamDialer, netio.StreamDialerInfo) {
 	c.w.mu.Lock()
 	defer c.w.mu.Unlock()
+	// the position of a member is where its name stands in the configured list (the order in which
+	// AddClientGroup asks for dialers when a name is listed more than once)
 	d := &fakeDialer{c: c, pos: len(c.w.dialers)}
+	if distinct(c.w.c.Group) {
+		d.pos = slices.Index(c.w.c.Group, c.name)
+	}
 	c.w.dialers = append(c.w.dialers, d)
 	return d, netio.StreamDialerInfo{Name: c.name}
 }
@@ -334,9 +339,9 @@ func buildGroup(w *world, pol string) (*group, error) {
 		if len(w.dialers) != len(c.Group) {
 			return nil, fmt.Errorf("AddClientGroup asked for %d dialers, the group has %d members", len(w.dialers), len(c.Group))
 		}
-		for i, d := range w.dialers {
-			if d.c.name != c.Group[i] {
-				return nil, fmt.Errorf("position %d holds %q, configured %q", i, d.c.name, c.Group[i])
+		for _, d := range w.dialers {
+			if d.pos < 0 {
+				return nil, fmt.Errorf("AddClientGroup asked %q, which is not configured, for a dialer", d.c.name)
 			}
 		}
 	}
@@ -378,6 +383,15 @@ func (g *group) who() (string, error) {
 }
 
 // ---------------------------------------------------------------- replay
+
+func distinct(names []string) bool {
+	for i, n := range names {
+		if slices.Index(names, n) != i {
+			return false
+		}
+	}
+	return true
+}
 
 func hash(parts ...any) uint64 {
 	h := fnv.New64a()
@@ -763,6 +777,7 @@ func runBehaviour(t *testing.T, in *vio.Input, c consts, bi int, b vio.Behaviour
 			synctest.Wait()
 		}()
 		pending := map[string]string{} // round-robin: caller -> what its add returned
+		rrStarted, rrOff := false, 0
 		ok := true
 		for si := 0; si < len(steps) && ok; si++ {
 			a := steps[si]
@@ -802,6 +817,18 @@ func runBehaviour(t *testing.T, in *vio.Input, c consts, bi int, b vio.Behaviour
 				}
 				pending[a.P] = got
 				res.Seen(fmt.Sprintf("rr/%d/%s", a.K%len(c.Group), got))
+				// C19 fixes the cyclic order, not the member the cycle starts with
+				if !rrStarted {
+					rrStarted = true
+					if gi := slices.Index(c.Group, got); gi >= 0 && distinct(c.Group) {
+						rrOff = (gi - a.K%len(c.Group) + len(c.Group)) % len(c.Group)
+					}
+					if rrOff != 0 {
+						res.DriftNote(vio.Finding{Key: "groups.round-robin/cycle-starts-elsewhere", Behaviour: bi, Step: si, Expected: a.Out, Observed: got,
+							Text: fmt.Sprintf("the first selection returned %q, the model starts the cycle at %q", got, a.Out), Replay: r.replayObj()})
+					}
+				}
+				a.Out = c.Group[(a.K+rrOff)%len(c.Group)]
 				if got != a.Out {
 					r.violation(si, "groups.round-robin/not-cyclic",
 						fmt.Sprintf("round-robin group %v: selection number %d returned %q, cyclic configuration order gives %q", c.Group, a.K, got, a.Out), a.Out, got)
@@ -915,7 +942,8 @@ type rrParams struct {
 	Traces  int `json:"traces"`  // sub-traces to record
 	Callers int `json:"callers"` // concurrent callers
 	Calls   int `json:"calls"`   // calls per caller per sub-trace
-	Bulk    int `json:"bulk"`    // calls per caller in the counting run
+	Bulk    int `json:"bulk"`    // least number of calls per caller in the counting run
+	BulkMs  int `json:"bulkMs"`  // least duration of the counting run
 }
 
 type rrEvent struct {
@@ -937,7 +965,7 @@ func TestRecordRR(t *testing.T) {
 			t.Fatal(err)
 		}
 	}()
-	p := rrParams{Traces: 4, Callers: 8, Calls: 6, Bulk: 20000}
+	p := rrParams{Traces: 4, Callers: 8, Calls: 6, Bulk: 20000, BulkMs: 200}
 	in.Param("rr", &p)
 	var out string
 	in.Param("out", &out)
@@ -1045,7 +1073,9 @@ func TestRecordRR(t *testing.T) {
 		_ = f.Close()
 		res.Count("rr_lines", line-1)
 	}
-	// counting run: many more selections, no recording
+	// counting run: all callers select as fast as they can for BulkMs milliseconds (long enough to overlap even on
+	// a busy machine; the duration is not asserted on); at quiescence K selections were made and the members must
+	// have been handed out exactly as K consecutive tickets hand them out
 	for gi, grp := range groups {
 		w := &world{c: consts{Group: grp, Universe: universe, Proto: "tcp", T: 1, UnitNs: 1, IntervalNs: 1}, res: res}
 		g, err := buildGroup(w, "round-robin")
@@ -1055,44 +1085,46 @@ func TestRecordRR(t *testing.T) {
 		}
 		counts := make([]map[string]int, p.Callers)
 		var wg sync.WaitGroup
+		gate := make(chan struct{})
+		deadline := time.Now().Add(time.Duration(p.BulkMs) * time.Millisecond)
 		for ci := range p.Callers {
 			counts[ci] = map[string]int{}
 			wg.Add(1)
 			go func() {
 				defer wg.Done()
-				for range p.Bulk {
-					_, info := g.tcp.NewStreamDialer()
-					counts[ci][info.Name]++
+				<-gate
+				for done := 0; done < p.Bulk || time.Now().Before(deadline); done += 512 {
+					for range 512 {
+						_, info := g.tcp.NewStreamDialer()
+						counts[ci][info.Name]++
+					}
 				}
 			}()
 		}
+		close(gate)
 		wg.Wait()
 		total := map[string]int{}
+		k := 0
 		for _, m := range counts {
-			for k, v := range m {
-				total[k] += v
+			for name, v := range m {
+				total[name] += v
+				k += v
 			}
 		}
 		var evs []rrEvent
-		for k, v := range total {
-			for range v {
-				evs = append(evs, rrEvent{E: "ret", C: k})
-			}
+		for name, v := range total {
+			evs = append(evs, rrEvent{E: "ret", C: name, Next: v})
 		}
-		checkCounts(res, gi, grp, evs, p.Callers*p.Bulk, "bulk")
-		res.Count("rr_bulk_selections", p.Callers*p.Bulk)
+		checkCounts(res, gi, grp, evs, k, "bulk")
+		res.Count("rr_bulk_selections", k)
 	}
 }
 
 func checkCounts(res *vio.Result, id int, grp []string, evs []rrEvent, k int, what string) {
-	want := map[string]int{}
-	for tkt := range k {
-		want[grp[tkt%len(grp)]]++
-	}
 	got := map[string]int{}
 	for _, e := range evs {
 		if e.E == "ret" {
-			got[e.C]++
+			got[e.C] += max(1, e.Next) // the counting run passes totals in Next
 		}
 	}
 	for name := range got {
@@ -1101,17 +1133,33 @@ func checkCounts(res *vio.Result, id int, grp []string, evs []rrEvent, k int, wh
 			return
 		}
 	}
-	var diff []string
-	for _, name := range grp {
-		if got[name] != want[name] {
-			diff = append(diff, fmt.Sprintf("%s: %d instead of %d", name, got[name], want[name]))
+	res.Seen(fmt.Sprintf("rrcount/%s/%d", what, len(grp)))
+	// k consecutive tickets of a cycle that may start at any member
+	var want0 map[string]int
+	for off := range grp {
+		want := map[string]int{}
+		for tkt := range k {
+			want[grp[(tkt+off)%len(grp)]]++
+		}
+		if off == 0 {
+			want0 = want
+		}
+		same := true
+		for _, name := range grp {
+			same = same && got[name] == want[name]
+		}
+		if same {
+			return
 		}
 	}
-	res.Seen(fmt.Sprintf("rrcount/%s/%d", what, len(grp)))
-	if len(diff) > 0 {
-		slices.Sort(diff)
-		diff = slices.Compact(diff)
-		res.Violation(vio.Finding{Key: "groups.round-robin/skipped-or-repeated", Behaviour: id, Expected: want, Observed: got,
-			Text: fmt.Sprintf("round-robin group %v after %d concurrent selections (%s run): %s", grp, k, what, strings.Join(diff, "; "))})
+	var diff []string
+	for _, name := range grp {
+		if got[name] != want0[name] {
+			diff = append(diff, fmt.Sprintf("%s: %d instead of %d", name, got[name], want0[name]))
+		}
 	}
+	slices.Sort(diff)
+	diff = slices.Compact(diff)
+	res.Violation(vio.Finding{Key: "groups.round-robin/skipped-or-repeated", Behaviour: id, Expected: want0, Observed: got,
+		Text: fmt.Sprintf("round-robin group %v after %d concurrent selections (%s run): %s", grp, k, what, strings.Join(diff, "; "))})
 }
